@@ -180,3 +180,174 @@ func cleansValue(p *Prog, v ssa.Value, d int) bool {
 	}
 	return false
 }
+
+// R-C11-RENDERS: "a missing name is an error (or nothing, with if_exists)". The node of a tag that renders another
+// template succeeds only by having executed a template — except where it is reached only with if_exists set. A
+// success return that neither passed the execution of a template nor stands behind the if_exists test renders nothing
+// for a name that was asked for without if_exists (e.g. a table entry that remembers "was missing" for another tag).
+func ruleC11Renders(p *Prog, a *Anchors, r *Report) {
+	r.Begin("R-C11-RENDERS", "the include node returns success only after executing a template, or where if_exists is set: nothing else may stand for a rendered template", 2)
+	f := p.Method("tagIncludeNode", "Execute")
+	exec := p.Method("Template", "execute")
+	if f == nil || exec == nil {
+		r.Unk("anchor", "-", "anchor unresolved: (*tagIncludeNode).Execute / (*Template).execute")
+		return
+	}
+	name := p.FuncName(f)
+	executes := func(in ssa.Instruction) bool {
+		ci, ok := in.(ssa.CallInstruction)
+		if !ok {
+			return false
+		}
+		if _, isDefer := in.(*ssa.Defer); isDefer {
+			return false
+		}
+		if _, isGo := in.(*ssa.Go); isGo {
+			return false
+		}
+		var roots []*ssa.Function
+		for _, c := range p.Callees(p.CG, ci) {
+			if c == f {
+				return false
+			}
+			if p.InPkg(c) {
+				roots = append(roots, c)
+			}
+		}
+		if len(roots) == 0 {
+			return false
+		}
+		// the call executes a template on every one of its callees
+		for _, c := range roots {
+			if c != exec && !p.Reach(p.CG, []*ssa.Function{c}, map[*ssa.Function]bool{f: true})[exec] {
+				return false
+			}
+		}
+		// … and it is a call on a *Template or one handed a *Template/the writer: evaluating an expression (which can
+		// reach a macro that includes) does not count
+		cc := ci.Common()
+		for _, arg := range callArgs(cc) {
+			if pt, ok := arg.Type().(*types.Pointer); ok && types.Identical(pt.Elem(), a.Template) {
+				return true
+			}
+		}
+		return false
+	}
+	ei := errorResultIndex(f)
+	n := 0
+	for _, ret := range returnsOf(f) {
+		if ei < 0 || !isNilConst(res(ret, ei)) {
+			continue
+		}
+		n++
+		key := name + ":success"
+		if n > 1 {
+			key += "#" + itoa(int64(n))
+		}
+		if MustPass(ret, executes) {
+			r.OK(key, p.InstrPos(ret), "reached only after a template was executed")
+			continue
+		}
+		ifEx := Guarded(ret, throughPredicates(p, func(cnd ssa.Value, pol bool, sub func(ssa.Value) ssa.Value) bool {
+			return pol && loadsField(cnd, "tagIncludeNode", "ifExists")
+		}))
+		if ifEx {
+			r.OK(key, p.InstrPos(ret), "nothing is rendered only where if_exists is set")
+		} else {
+			r.Bad(key, p.InstrPos(ret), "the include node can succeed without having executed a template and without if_exists being set: a name that cannot be loaded renders as nothing instead of being an error")
+		}
+	}
+	if n == 0 {
+		r.Unk(name+":success", p.Pos(f.Pos()), "no success return found")
+	}
+}
+
+// R-C11-TPLNAME: "relative names resolve against the referring template" and "the first loader that has a name wins".
+// The names a template's own tags write are resolved with loaders[0].Abs(<the template's name>, <name written>): the
+// name a loaded template is compiled under is therefore a name of the set's name space — the name it was asked for
+// under (which the referring tag resolved with the first loader), or what resolveFilename makes of it — and never what
+// one particular loader (the one that happened to have the file) knows it by: the first loader would then be asked for
+// names that nobody wrote.
+func ruleC11TplName(p *Prog, a *Anchors, r *Report) {
+	r.Begin("R-C11-TPLNAME", "a template fetched from the loaders is compiled under the name it was asked for (or its resolveFilename form), never under a name a single loader produced", 1)
+	resolve := p.Method("TemplateSet", "resolveFilename")
+	if a.NewTemplate == nil || resolve == nil {
+		r.Unk("anchor", "-", "anchor unresolved: newTemplate / resolveFilename")
+		return
+	}
+	// the name parameter of the constructor: the string that ends up in Template.name
+	nameIdx := -1
+	for i, pa := range a.NewTemplate.Params {
+		if b, ok := pa.Type().Underlying().(*types.Basic); ok && b.Kind() == types.String {
+			for _, u := range refs(pa) {
+				if st, ok := u.(*ssa.Store); ok && isFieldAddrOf(st.Addr, "Template", "name") {
+					nameIdx = i
+				}
+			}
+		}
+	}
+	if nameIdx < 0 {
+		r.Unk("anchor", "-", "anchor unresolved: the parameter of %s stored into Template.name", p.FuncName(a.NewTemplate))
+		return
+	}
+	n := 0
+	for _, f := range p.Funcs {
+		for _, ci := range callsTo(f, a.NewTemplate) {
+			args := ci.Common().Args
+			if nameIdx >= len(args) {
+				continue
+			}
+			if _, isC := args[nameIdx].(*ssa.Const); isC {
+				continue // a template compiled from a string has a fixed placeholder name
+			}
+			n++
+			key := p.FuncName(f) + ":compiled-under"
+			var bad []string
+			seen := map[ssa.Value]bool{}
+			var walk func(v ssa.Value, d int)
+			walk = func(v ssa.Value, d int) {
+				if v == nil || seen[v] || d > 10 {
+					return
+				}
+				seen[v] = true
+				switch x := v.(type) {
+				case *ssa.Parameter, *ssa.Const:
+				case *ssa.Phi:
+					for _, e := range x.Edges {
+						walk(e, d+1)
+					}
+				case *ssa.UnOp:
+					if cell, ok := x.X.(*ssa.Alloc); ok {
+						for _, sv := range allStoresTo(cell) {
+							walk(sv, d+1)
+						}
+						return
+					}
+					bad = append(bad, p.VN(v))
+				case *ssa.Call:
+					if x.Common().StaticCallee() == resolve {
+						return
+					}
+					bad = append(bad, "the result of "+p.calleeName(x.Common()))
+				case *ssa.Extract:
+					if c, ok := x.Tuple.(*ssa.Call); ok {
+						bad = append(bad, "a result of "+p.calleeName(c.Common()))
+						return
+					}
+					bad = append(bad, p.VN(v))
+				default:
+					bad = append(bad, p.VN(v))
+				}
+			}
+			walk(args[nameIdx], 0)
+			if len(bad) == 0 {
+				r.OK(key, p.InstrPos(ci.(ssa.Instruction)), "the template is compiled under the name the caller asked for")
+			} else {
+				r.Bad(key, p.InstrPos(ci.(ssa.Instruction)), "the template is compiled under %s, not under the name it was asked for: the names its own tags write are resolved by the first loader against that name (a template served by a later loader then refers the first loader to names nobody wrote)", strings.Join(bad, ", "))
+			}
+		}
+	}
+	if n == 0 {
+		r.Unk("none", "-", "no call of %s with a computed name", p.FuncName(a.NewTemplate))
+	}
+}
